@@ -77,6 +77,24 @@ func AssertDefaults(c *core.Ctx, when string) {
 	}
 }
 
+// ambientDecoderOptions sets, in a fraction of the cases, decoder/encoder options that the map-query and update
+// functions do not document as affecting them (the caller must defer ResetDefaults).
+func ambientDecoderOptions(c *core.Ctx, oneIn int) bool {
+	r := c.R
+	if r.Intn(oneIn) != 0 {
+		return false
+	}
+	mxj.CoerceKeysToLower(r.Intn(2) == 0)
+	mxj.CoerceKeysToSnakeCase(r.Intn(2) == 0)
+	mxj.SetAttrPrefix([]string{"@", "", "-", "attr_"}[r.Intn(4)])
+	mxj.DisableTrimWhiteSpace(r.Intn(2) == 0)
+	mxj.DecodeSimpleValuesAsMap(r.Intn(2) == 0)
+	mxj.CastNanInf(r.Intn(2) == 0)
+	mxj.XMLEscapeChars(r.Intn(2) == 0)
+	c.Count("ambient:decoder-options")
+	return true
+}
+
 // AssertRestored: after the workload every option was set back to its default through the public setters; if the
 // hooked state still differs from the fresh-process state the library cannot be restored - reported as a violation
 // (whatever the property being checked, its oracle cannot be trusted in that state).
